@@ -24,12 +24,15 @@ pub fn compress(c: &mut Case, fmt: Fmt, input: &[u8]) -> Option<Result<Vec<u8>, 
     // both public entry points: the format struct, and the CompressionFormat enum that the
     // layered filesystem dispatches through (chosen by the parity of the input length)
     let via_enum = input.len() % 2 == 1;
-    let r = c.lib(if fmt == Fmt::Lz10 { "LZ10 compress" } else { "LZ13 compress" }, || match (fmt, via_enum) {
+    let call = || match (fmt, via_enum) {
         (Fmt::Lz10, false) => LZ10CompressionFormat {}.compress(input).map_err(|e| e.to_string()),
         (Fmt::Lz13, false) => LZ13CompressionFormat {}.compress(input).map_err(|e| e.to_string()),
         (Fmt::Lz10, true) => CompressionFormat::LZ10(LZ10CompressionFormat {}).compress(input).map_err(|e| e.to_string()),
         (Fmt::Lz13, true) => CompressionFormat::LZ13(LZ13CompressionFormat {}).compress(input).map_err(|e| e.to_string()),
-    });
+    };
+    let what = if fmt == Fmt::Lz10 { "LZ10 compress" } else { "LZ13 compress" };
+    // small inputs (and every fourth case) are compressed twice, under two heap poison bytes
+    let r = if input.len() <= 4096 || c.idx % 4 == 0 { c.lib_stable(what, call) } else { c.lib(what, call) };
     monitor::alloc_watch_end();
     r
 }
@@ -37,7 +40,7 @@ pub fn compress(c: &mut Case, fmt: Fmt, input: &[u8]) -> Option<Result<Vec<u8>, 
 pub fn decompress(c: &mut Case, fmt: Fmt, stream: &[u8]) -> Option<Result<Vec<u8>, String>> {
     let tight_copy = crate::monitor::tight(stream);
     let stream: &[u8] = &tight_copy;
-    c.lib(if fmt == Fmt::Lz10 { "LZ10 decompress" } else { "LZ13 decompress" }, || match fmt {
+    c.lib_stable(if fmt == Fmt::Lz10 { "LZ10 decompress" } else { "LZ13 decompress" }, || match fmt {
         Fmt::Lz10 => LZ10CompressionFormat {}.decompress(stream).map_err(|e| e.to_string()),
         Fmt::Lz13 => LZ13CompressionFormat {}.decompress(stream).map_err(|e| e.to_string()),
     })
